@@ -398,6 +398,14 @@ func TestC20CLI(t *testing.T) {
 			}
 			col.Class("cli-hostile-result")
 		}
+		if gen.Uniform(rt, "oddstart", 10) == 0 {
+			// the driver passes the file's text on as it is: whatever Execute
+			// makes of a byte-order mark, a no-break space, a NUL or a form feed
+			// at the very start, the driver reports the same
+			odd := []string{"\ufeff", "\u00a0", "\x00", "\f", "\ufeff\ufeff", "\u200b", "\xef\xbb", "#!/usr/bin/evalfilter\n"}
+			script = odd[gen.Uniform(rt, "oddchar", len(odd))] + script
+			col.Class("cli-odd-first-character")
+		}
 		withJSON := len(doc.H) > 0 || rapid.Bool().Draw(rt, "withjson")
 		noOpt := rapid.Bool().Draw(rt, "noopt")
 		withTimeout := rapid.Bool().Draw(rt, "timeout")
